@@ -385,7 +385,11 @@ class StorageFrontend:
         if not (fuzzy_for or fuzzy_for_options):
             return lineage == desired_lineage
         args = [fuzzy_for, fuzzy_for_options]
-        return self._filter_lineage(lineage, *args) == self._filter_lineage(desired_lineage, *args)
+        # Compare like exact matching does (by hash): as python objects,
+        # option values such as 1, True and 1.0 are equal.
+        return strax.deterministic_hash(
+            self._filter_lineage(lineage, *args)
+        ) == strax.deterministic_hash(self._filter_lineage(desired_lineage, *args))
 
     @staticmethod
     def _filter_lineage(lineage, fuzzy_for, fuzzy_for_options):
